@@ -658,18 +658,15 @@ pub fn invalidate_oplog(
     stream: &mut BufWriter<File>,
     dbs: &Arc<Databases>,
 ) -> Result<usize, Error> {
-    let is_oplog_valid = { dbs.is_oplog_valid.load(Ordering::SeqCst) };
-    if is_oplog_valid {
-        dbs.is_oplog_valid.swap(false, Ordering::Relaxed);
-        log::debug!("invalidating oplog");
-        stream.seek(SeekFrom::Start(0)).unwrap();
-        #[cfg(nun_verif)]
-        crate::verif::crash_point("flag.invalidate.seek");
-        return stream.write(&[0]);
-    } else {
-        log::debug!("No need to invalidating oplog as it is already valid");
-        Result::Ok(0)
-    }
+    // The mark goes to disk even if the flag in memory is already false: a start-up that found
+    // the log invalid removes the flag file and keeps the flag in memory false, and a missing
+    // flag file reads as valid at the next start-up
+    dbs.is_oplog_valid.swap(false, Ordering::Relaxed);
+    log::debug!("invalidating oplog");
+    stream.seek(SeekFrom::Start(0)).unwrap();
+    #[cfg(nun_verif)]
+    crate::verif::crash_point("flag.invalidate.seek");
+    stream.write(&[0])
 }
 
 fn mark_op_log_as_valid(dbs: &Arc<Databases>) -> Result<usize, Error> {
